@@ -1,4 +1,4 @@
-import Pr.KV
+import KV
 /-! calibration: representation invariant + commuting square for a toy collection (counter + documents) -/
 namespace Mini
 
